@@ -1,12 +1,12 @@
 SPECIFICATION Spec
 CONSTANTS
-  NG = 2
+  NG = 0
   NO = 1
-  ND = 2
+  ND = 3
   NP = 1
   Names = {"a"}
   Vals = {1}
-  Acts = {"CreateGroup", "CreateObject", "AddData", "AddToGroup", "Copy2", "Remove2", "RemoveViaWorkspace", "Copy", "Close", "Open"}
+  Acts = {"CreateObject", "AddData", "Copy", "SetType", "SetVal", "RemoveViaWorkspace", "Collect", "DropRef", "Close", "Open"}
   Deviations = {"CloseKeepsOrphans"}
   MaxDepth = 8
 CONSTRAINT DepthBound
